@@ -721,7 +721,7 @@ func (r *runner) finish() {
 	r.hung.mu.Unlock()
 	r.rep.Extra["counters"] = r.cnt
 	// failure paths (spec/Faults.tla): LiteFS's own rollback with every call through the OS interface failing once
-	faults.Run(r.rep, r.args, faults.Select{Ops: []string{"recover", "halt", "import"}, Monitors: []string{"journal"}})
+	faults.Run(r.rep, r.args, faults.Select{Ops: []string{"recover", "halt", "import"}, Monitors: []string{"journal", "mount"}})
 	if n := len(r.pool.flukes); n > 0 {
 		r.rep.Extra["worker_deaths_not_reproduced"] = n
 		r.rep.Note("a child process died %d time(s) on an input on which a fresh child then succeeded (not an observation about litefs); first: %s", n, r.pool.flukes[0])
